@@ -1,7 +1,7 @@
 SPECIFICATION Spec
 CONSTANTS
   Dir = "resp"
-  Forms = {1, 2, 3, 4}
+  Forms = {1, 2, 3, 4, 9}
   Deep = TRUE
   EmitVectors = TRUE
 INVARIANTS RespRoundTrip Emit
